@@ -1,0 +1,18 @@
+//go:build verif
+
+package gc
+
+// VerifRound runs one collection round synchronously: the allocated-IP directories, then the gc dirs.
+// (Run() drives the same two functions from timers in separate goroutines.)
+func VerifRound(g GC) error {
+	f := g.(*flannelGC)
+	if err := f.cleanupIP(); err != nil {
+		return err
+	}
+	return f.cleanupGCDirs()
+}
+
+// VerifShouldCleanup exposes the cleanup decision for one container id.
+func VerifShouldCleanup(g GC, cid string) bool {
+	return g.(*flannelGC).shouldCleanup(cid)
+}
